@@ -262,6 +262,7 @@ type desc struct {
 	id         int
 	nb, na     int64
 	host, le   bool
+	cn, san    byte // optional: Subject CommonName (e empty, d the domain, o another name) and SAN shape (c covers, w wildcard covers, o other name, n none, x wildcard not covering, i an IP only)
 	pub, priv  string
 	match      bool
 	near       string // "" | "m": leaf key is a near miss of the private key (EC: same X, other Y; RSA: one bit of N flipped) | "e": RSA same N, other E
@@ -275,7 +276,10 @@ func parseDesc(s string) (d desc, ok bool) {
 	d.id, _ = strconv.Atoi(f[1])
 	d.nb, _ = strconv.ParseInt(f[2], 10, 64)
 	d.na, _ = strconv.ParseInt(f[3], 10, 64)
-	d.host, d.le = f[4] == "1", f[5] == "1"
+	d.host, d.le = strings.HasPrefix(f[4], "1"), f[5] == "1"
+	if len(f[4]) == 3 {
+		d.cn, d.san = f[4][1], f[4][2]
+	}
 	d.pub, d.priv, d.match = f[6], f[7], f[8] == "1"
 	if f[8] == "m" || f[8] == "e" {
 		d.near = f[8]
@@ -342,7 +346,36 @@ func makeCert(d desc, domain string, csrPub crypto.PublicKey) (der []byte, priv 
 		ExtKeyUsage:  []x509.ExtKeyUsage{x509.ExtKeyUsageServerAuth},
 	}
 	ip := net.ParseIP(domain)
-	if d.host {
+	if d.san != 0 { // explicit Subject CommonName / SAN shapes; the host bit of the descriptor is the x509 verdict
+		switch d.cn {
+		case 'e':
+			tmpl.Subject.CommonName = ""
+		case 'd':
+			tmpl.Subject.CommonName = domain
+		default:
+			tmpl.Subject.CommonName = "other.invalid"
+		}
+		rest := ""
+		if i := strings.Index(domain, "."); i >= 0 {
+			rest = domain[i:]
+		}
+		switch d.san {
+		case 'c':
+			if ip != nil {
+				tmpl.IPAddresses = []net.IP{ip}
+			} else {
+				tmpl.DNSNames = []string{domain}
+			}
+		case 'w':
+			tmpl.DNSNames = []string{"*" + rest}
+		case 'o':
+			tmpl.DNSNames = []string{"unrelated.invalid"}
+		case 'x':
+			tmpl.DNSNames = []string{"*." + domain}
+		case 'i':
+			tmpl.IPAddresses = []net.IP{net.ParseIP("192.0.2.7")}
+		}
+	} else if d.host {
 		switch {
 		case ip != nil:
 			tmpl.IPAddresses = []net.IP{ip}
@@ -1136,8 +1169,44 @@ func genDesc(r *hx.Rand, g *hx.Gen, id int, now int64, wantType, dom string) str
 	return finishDesc(g, id, nb, na, host, le, pub, priv, fmt.Sprint(match), dom)
 }
 
+// hostVerdict builds a certificate with the given CommonName / SAN shape and asks crypto/x509.
+func hostVerdict(cn, san byte, dom string) int {
+	der, _, err := makeCert(desc{nb: 0, na: 1 << 32, host: true, cn: cn, san: san, pub: "ec", priv: "ec", match: true}, dom, nil)
+	if err != nil {
+		return 0
+	}
+	if leaf, err := x509.ParseCertificate(der); err == nil && leaf.VerifyHostname(dom) == nil {
+		return 1
+	}
+	return 0
+}
+
 func finishDesc(g *hx.Gen, id int, nb, na int64, host, le int, pub, priv, match, dom string) string {
 	hit("cert-key-type", 3, pub)
+	r := g.R
+	if r.Chance(1, 2) { // Subject CommonName x SAN shape; CN must never decide
+		cn := hx.Pick(r, []byte{'e', 'd', 'o'})
+		san := hx.Pick(r, []byte{'c', 'w'})
+		if host == 0 {
+			san = hx.Pick(r, []byte{'o', 'n', 'x', 'i'})
+		}
+		if id == 0 && (san == 'w' || san == 'x') {
+			// the CA's descriptor serves every name of the op: keep to shapes whose verdict does not depend on the name
+			san = map[byte]byte{'w': 'c', 'x': 'o'}[san]
+		}
+		if host == 0 {
+			if r.Chance(1, 2) {
+				cn = 'd' // the name is in the CommonName only
+			}
+		}
+		v := hostVerdict(cn, san, dom)
+		g.Stat(fmt.Sprintf("cert.cn=%c+san=%c", cn, san))
+		hit("cn-x-san", 18, string([]byte{cn, san}))
+		if cn == 'd' && v == 0 {
+			g.Stat("cert.name-in-CommonName-only")
+		}
+		return fmt.Sprintf("c/%d/%d/%d/%d%c%c/%d/%s/%s/%s", id, nb, na, v, cn, san, le, pub, priv, match)
+	}
 	if host == 1 && !hostRealisable(id, dom) {
 		host = 0
 		g.Stat("cert.name-not-a-valid-hostname")
